@@ -1,6 +1,7 @@
 package rules
 
 import (
+	"os"
 	"fmt"
 	"go/ast"
 	"go/token"
@@ -289,7 +290,12 @@ func runC05(c *Ctx) {
 			if !ok || (be.Op != token.NEQ && be.Op != token.EQL) {
 				return true
 			}
-			if fn.Term(be.X).Key() == fn.Term(arg).Key() {
+			// one side is the deleted pod (as written, or a local the engine knows equal to it at the call)
+			same := fn.Term(be.X).Key() == fn.Term(arg).Key()
+			if !same {
+				same, _ = st.Implies(gf.FEq(fn.Term(be.X), fn.Term(arg)))
+			}
+			if same {
 				if id, ok := ast.Unparen(be.Y).(*ast.Ident); ok && types.TypeString(info.TypeOf(id), nil) == "*k8s.io/api/core/v1.Pod" {
 					fu = id
 				}
@@ -522,6 +528,15 @@ func runC14(c *Ctx) {
 	}
 	kstart := aP.In[kbody.Index].Assume(c.Want(fn, r.KLoop.Body.Pos(), `$1.DeletionTimestamp == nil`, kdel.Args[1]))
 	aK := fn.FromUntil(kbody.Nodes[0], kstart, kdel)
+	if os.Getenv("ASV_DEBUG") != "" {
+		fmt.Println("DEBUG kstart:", kstart.String())
+		for _, n := range kbody.Nodes {
+			fmt.Println("DEBUG before", fmt.Sprintf("%T", n), ":", aK.StateBefore(n).String())
+		}
+		for i, e := range aK.EdgeStates(kbody) {
+			fmt.Println("DEBUG edge", i, ":", e.String())
+		}
+	}
 	c.mustReach(r, aK, r.KLoop, kdel, "C14.2-condemned-reaches-delete", r.FI.Obj.Name()+": scale-down iteration with a live condemned pod")
 	// the scale-down loop visits every condemned pod: walk from the top down to 0
 	if _, ok := c.walkShape(r, r.KLoop, r.K, "C14.2-all-condemned-visited", r.FI.Obj.Name()+": scale-down loop"); ok {
@@ -585,7 +600,8 @@ func (c *Ctx) mustReach(r *Reconcile, a *gf.Analysis, loop ast.Stmt, target *ast
 		case *ast.ReturnStmt:
 			if a.StateBefore(x).Reachable() {
 				ok = false
-				c.Bad(rule, name, x.Pos(), "a return is reachable before the "+calleeShort(r.FI.Pkg.TypesInfo, target)+" call")
+				_, wit := a.StateBefore(x).Implies(gf.False)
+				c.Bad(rule, name, x.Pos(), "a return is reachable before the "+calleeShort(r.FI.Pkg.TypesInfo, target)+" call; facts on one such path: "+clip(wit, 600))
 			}
 		}
 		return true
